@@ -7,7 +7,8 @@
                     os.Chtimes [FOLLOWS] unless MTime == Unix(0,0)
      CreateFile     os.RemoveAll(dst); os.OpenFile(dst, O_CREATE|O_WRONLY|O_TRUNC) [FOLLOWS, no O_EXCL];
                     io.Copy; SetFilePermissions (as above); os.Chtimes
-     CreateSymlink  syscall.Unlink(dst) (ENOENT ignored); os.Symlink(target, dst); os.Lchown, xattr.LSet
+     CreateSymlink  syscall.Unlink(dst) (ENOENT ignored); os.Symlink(target, dst); os.Lchown, xattr.LSet;
+                    utimensat(AT_SYMLINK_NOFOLLOW) unless MTime == Unix(0,0)
      CreateDevice   syscall.Unlink(dst) (ENOENT ignored); syscall.Mknod; os.Chown, xattr.LSet,
                     syscall.Chmod, os.Chtimes [all but LSet FOLLOW]
 
@@ -82,6 +83,10 @@ Definition set_perms (o : opts) (dst : bytes) (m : nmeta) (follow_owner with_chm
 Definition chtimes (dst : bytes) (m : nmeta) : step :=
   if N.eqb (n_mtime m) 0 then ok_step else lift (k_setmeta true (set_mtime (n_mtime m)) dst).
 
+(* setSymlinkTimes: utimensat(AT_FDCWD, dst, .., AT_SYMLINK_NOFOLLOW), same skip for the epoch *)
+Definition lchtimes (dst : bytes) (m : nmeta) : step :=
+  if N.eqb (n_mtime m) 0 then ok_step else lift (k_setmeta false (set_mtime (n_mtime m)) dst).
+
 Definition meta_dir : meta := mkMeta 511 0 0 0 [].     (* mkdir(dst, 0777) *)
 Definition meta_file : meta := mkMeta 438 0 0 0 [].    (* open(.., 0666) *)
 Definition meta_link : meta := mkMeta 511 0 0 0 [].
@@ -112,7 +117,8 @@ Definition create_symlink (o : opts) (root name : bytes) (m : nmeta) (target : b
   let dst := dst_of root name in
   steps [ ignore_enoent (lift (k_unlink dst));
           lift (k_symlink target dst meta_link);
-          set_perms o dst m false false ].
+          set_perms o dst m false false;
+          lchtimes dst m ].
 
 (* mknod(dst, FilemodeToStatMode(n.Mode)|0666, dev): the file type FilemodeToStatMode can
    produce is one of REG DIR LNK BLK CHR FIFO SOCK; the kernel refuses DIR (EPERM) and LNK (EINVAL) *)
@@ -141,7 +147,7 @@ Definition write_node (o : opts) (root : bytes) (n : anode) : step :=
 Inductive outcome := Done | DecodeError | WriteError (e : errno) | OutOfFuel.
 
 (* UnTar: for { c, err := dec.Next(); ...; err = fs.CreateX(n); if err != nil { return err } } *)
-Fixpoint untar_loop (fuel : nat) (pol : policy) (o : opts) (root : bytes) (started : bool) (dir : bytes)
+Fixpoint untar_loop (fuel : nat) (pol : policy) (o : opts) (root : bytes) (started : dstate) (dir : bytes)
   (inp : list elem) (st : wstate)
   : wstate * outcome :=
   match fuel with
@@ -150,9 +156,9 @@ Fixpoint untar_loop (fuel : nat) (pol : policy) (o : opts) (root : bytes) (start
       match archive_next pol started dir inp with
       | NEnd => (st, Done)
       | NErr => (st, DecodeError)
-      | NNode n _ dir' rest =>
+      | NNode n base dir' rest =>
           match write_node o root n st with
-          | (st', None) => untar_loop f pol o root true dir' rest st'
+          | (st', None) => untar_loop f pol o root (dstate_after pol started n base) dir' rest st'
           | (st', Some e) => (st', WriteError e)
           end
       end
@@ -161,4 +167,4 @@ Fixpoint untar_loop (fuel : nat) (pol : policy) (o : opts) (root : bytes) (start
 (* every call of Next consumes at least one element, so this fuel is never used up
    (Proofs/UntarProofs.v, untar_fuel) *)
 Definition untar (pol : policy) (o : opts) (root : bytes) (inp : list elem) (fs : node) : wstate * outcome :=
-  untar_loop (S (length inp)) pol o root false dir0 inp (mkW fs []).
+  untar_loop (S (length inp)) pol o root Fresh dir0 inp (mkW fs []).
